@@ -82,6 +82,32 @@
 #define SKINNY_VEC256_MATH 0
 #endif
 
+#ifdef SKINNY_C_VERIF
+/* Verification hook: allow the platform switches above to be overridden
+   from the compiler command line so that every compile-time code path
+   can be built and exercised on one host */
+#ifdef SKINNY_C_VERIF_64BIT
+#undef SKINNY_64BIT
+#define SKINNY_64BIT SKINNY_C_VERIF_64BIT
+#endif
+#ifdef SKINNY_C_VERIF_UNALIGNED
+#undef SKINNY_UNALIGNED
+#define SKINNY_UNALIGNED SKINNY_C_VERIF_UNALIGNED
+#endif
+#ifdef SKINNY_C_VERIF_LITTLE_ENDIAN
+#undef SKINNY_LITTLE_ENDIAN
+#define SKINNY_LITTLE_ENDIAN SKINNY_C_VERIF_LITTLE_ENDIAN
+#endif
+#ifdef SKINNY_C_VERIF_VEC128
+#undef SKINNY_VEC128_MATH
+#define SKINNY_VEC128_MATH SKINNY_C_VERIF_VEC128
+#endif
+#ifdef SKINNY_C_VERIF_VEC256
+#undef SKINNY_VEC256_MATH
+#define SKINNY_VEC256_MATH SKINNY_C_VERIF_VEC256
+#endif
+#endif /* SKINNY_C_VERIF */
+
 /* Attribute for declaring a vector type with this compiler */
 #if defined(__clang__)
 #define SKINNY_VECTOR_ATTR(words, bytes) __attribute__((ext_vector_type(words)))
